@@ -15,6 +15,7 @@ import (
 
 	"github.com/tetratelabs/wazero"
 	"github.com/tetratelabs/wazero/api"
+	"github.com/tetratelabs/wazero/experimental"
 	"github.com/tetratelabs/wazero/internal/leb128"
 	"github.com/tetratelabs/wazero/internal/wasm"
 	"github.com/tetratelabs/wazero/verifharness/common"
@@ -113,6 +114,42 @@ func trunc(s string) string {
 type inst struct {
 	rt  wazero.Runtime
 	mod api.Module
+	log *[]string // host calls: name and arguments, in order
+}
+
+// features of the generated modules: everything wazero implements
+const allFeatures = api.CoreFeaturesV2 | experimental.CoreFeaturesThreads | experimental.CoreFeaturesTailCall
+
+// addHost instantiates "env": the host functions of wgen.HostPool record their calls and return values derived from the arguments.
+func addHost(ctx context.Context, rt wazero.Runtime) (*[]string, error) {
+	// the host functions of wgen.HostPool: they record their calls and return values derived from the arguments
+	log := &[]string{}
+	rec := func(name string, a ...uint64) { *log = append(*log, fmt.Sprintf("%s%x", name, a)) }
+	_, err := rt.NewHostModuleBuilder("env").
+		NewFunctionBuilder().WithGoFunction(api.GoFunc(func(_ context.Context, st []uint64) {
+		rec("h0", uint64(uint32(st[0])), st[1])
+		st[0] = st[1]*3 + uint64(uint32(st[0]))
+	}), []api.ValueType{api.ValueTypeI32, api.ValueTypeI64}, []api.ValueType{api.ValueTypeI64}).Export("h0").
+		NewFunctionBuilder().WithGoFunction(api.GoFunc(func(_ context.Context, st []uint64) {
+		x, y := uint64(uint32(st[0])), st[1]
+		if isNaN32(uint32(x)) {
+			x = 0x7fc00000
+		}
+		if isNaN64(y) {
+			y = 0x7ff8000000000000
+		}
+		rec("h1", x, y)
+		st[0] = st[1]
+	}), []api.ValueType{api.ValueTypeF32, api.ValueTypeF64}, []api.ValueType{api.ValueTypeF64}).Export("h1").
+		NewFunctionBuilder().WithGoFunction(api.GoFunc(func(_ context.Context, st []uint64) {
+		rec("h2", uint64(uint32(st[0])))
+	}), []api.ValueType{api.ValueTypeI32}, nil).Export("h2").
+		NewFunctionBuilder().WithGoFunction(api.GoFunc(func(_ context.Context, st []uint64) {
+		rec("h3")
+		st[0] = uint64(len(*log))
+	}), nil, []api.ValueType{api.ValueTypeI32}).Export("h3").
+		Instantiate(ctx)
+	return log, err
 }
 
 // guardLoops makes calls interruptible (the shrinker may cut the decrement out of a counted loop).
@@ -126,13 +163,19 @@ func newInst(ctx context.Context, engine string, bin []byte) (*inst, error) {
 	if guardLoops {
 		cfg = cfg.WithCloseOnContextDone(true)
 	}
+	cfg = cfg.WithCoreFeatures(allFeatures)
 	rt := wazero.NewRuntimeWithConfig(ctx, cfg)
+	log, err := addHost(ctx, rt)
+	if err != nil {
+		rt.Close(ctx)
+		return nil, err
+	}
 	mod, err := rt.InstantiateWithConfig(ctx, bin, wazero.NewModuleConfig())
 	if err != nil {
 		rt.Close(ctx)
 		return nil, err
 	}
-	return &inst{rt, mod}, nil
+	return &inst{rt, mod, log}, nil
 }
 
 func opsOf(b wgen.Body) string {
@@ -182,7 +225,13 @@ func diffModule(id int, m *wgen.Module, it item, ops func(int) string) (res comm
 	defer b.rt.Close(ctx)
 	arng := rand.New(rand.NewSource(it.Seed + 1))
 	stats := map[string]int{}
-	defer func() { res.Obs = stats }()
+	var known []common.Fail // divergences listed as known findings do not end the comparison
+	defer func() {
+		res.Obs = stats
+		if len(known) > 0 {
+			res.AddFail(known[0].Key, known[0].Msg)
+		}
+	}()
 	for round := 0; round < 6; round++ {
 		for fi, name := range m.Exports {
 			sig := m.Sigs[fi]
@@ -203,6 +252,13 @@ func diffModule(id int, m *wgen.Module, it item, ops func(int) string) (res comm
 			}
 			if ka == "stack overflow" || kb == "stack overflow" {
 				continue
+			}
+			if ka == "unaligned atomic" && kb == "out of bounds memory access" {
+				// one cause, one key: an atomic access that is both misaligned and out of bounds (the engines order the two checks
+				// differently); both calls trapped, so everything else is still compared
+				known = append(known, common.Fail{Key: "engine=compiler;atomic-access-misaligned-and-out-of-bounds#trap-kind=out-of-bounds",
+					Msg: fmt.Sprintf("function %s%v args %x: interpreter ends with %q, compiler with %q", name, sig, av, ka, kb)})
+				kb = ka
 			}
 			if ka != kb {
 				fail("trap-kind", fmt.Sprintf("interpreter ends with %q, compiler with %q", ka, kb))
@@ -231,6 +287,12 @@ func diffModule(id int, m *wgen.Module, it item, ops func(int) string) (res comm
 					fail("global", fmt.Sprintf("%s: interpreter %#x compiler %#x", g, va, vb))
 				}
 			}
+			// host calls: the same functions with the same arguments in the same order
+			if la, lb := strings.Join(*a.log, " "), strings.Join(*b.log, " "); la != lb {
+				fail("host-calls", fmt.Sprintf("sequences of host calls differ: interpreter [%s] compiler [%s]", trunc(la), trunc(lb)))
+				return res
+			}
+			*a.log, *b.log = (*a.log)[:0], (*b.log)[:0]
 			// tables (size and null-map of the writable ones)
 			if ta, tb := a.mod.ExportedFunction("tstate"), b.mod.ExportedFunction("tstate"); ta != nil && tb != nil {
 				xa, e1 := ta.Call(ctx)
@@ -320,8 +382,12 @@ func compileOne(id int, raw json.RawMessage) common.Result {
 			cfg = wazero.NewRuntimeConfigCompiler()
 		}
 		// mutated code may loop for ever: that is the guest's right; the calls below run under a deadline
-		rt := wazero.NewRuntimeWithConfig(ctx, cfg.WithCloseOnContextDone(true))
+		rt := wazero.NewRuntimeWithConfig(ctx, cfg.WithCloseOnContextDone(true).WithCoreFeatures(allFeatures))
 		defer rt.Close(ctx)
+		if _, err := addHost(ctx, rt); err != nil {
+			res.AddFail("infra", "host module: "+err.Error())
+			return
+		}
 		var ms0, ms1 runtime.MemStats
 		runtime.ReadMemStats(&ms0)
 		t0 := time.Now()
@@ -384,8 +450,26 @@ func compileOne(id int, raw json.RawMessage) common.Result {
 				}
 			}
 			cctx, cancel := context.WithTimeout(ctx, 2*time.Second)
-			_, err := mod.ExportedFunction(name).Call(cctx, make([]uint64, n)...)
+			var err error
+			func() {
+				defer func() {
+					if r := recover(); r != nil {
+						err = fmt.Errorf("PANIC: %v", r)
+					}
+				}()
+				_, err = mod.ExportedFunction(name).Call(cctx, make([]uint64, n)...)
+			}()
 			cancel()
+			if _, _, imported := def.Import(); imported && engine == "compiler" && err != nil && strings.Contains(err.Error(), "PANIC: runtime error: index out of range") {
+				// one cause, one key (listed finding): an export that names an imported HOST function
+				res.AddFail("engine=compiler;export-of-imported-host-function;ExportedFunction#panics",
+					fmt.Sprintf("%s: module exports its import %s: api.Module.ExportedFunction panics on the compiler: %v", label, name, err))
+				continue
+			}
+			if err != nil && strings.HasPrefix(err.Error(), "PANIC") {
+				res.AddFail(key("run-panics"), fmt.Sprintf("%s: %s", name, trunc(err.Error())))
+				continue
+			}
 			if k := errKind(err); strings.HasPrefix(k, "INTERNAL") {
 				res.AddFail(key("run-internal-failure"), fmt.Sprintf("%s: %s", name, k))
 			}
